@@ -524,6 +524,16 @@ func (g *g15) stmt(c ctx15) []*pStmt {
 		body := g.nested(c, true)
 		body = append([]*pStmt{{K: "expr", E: assign(cn, arith("+", pvar(cn), litInt(1)))}}, body...)
 		g.dist["stmt:while"]++
+		if g.chance(0.3) {
+			// the bound is a variable of the enclosing block and the body declares a variable of the same name:
+			// the loop's block is emptied before the condition is evaluated again, so the condition always reads
+			// the outer one
+			bn := fmt.Sprintf("b%d", g.loopN)
+			body = append([]*pStmt{body[0], {K: "var", X: bn, E: litInt(0)}}, body[1:]...)
+			g.dist["feature:while-body-shadows-condition-variable"]++
+			res := []*pStmt{{K: "var", X: cn, E: litInt(0)}, {K: "var", X: bn, E: litInt(bound)}, {K: "while", E: cmp("<", pvar(cn), pvar(bn)), Body: body}}
+			return append(res, g.probe(c)...)
+		}
 		res := []*pStmt{{K: "var", X: cn, E: litInt(0)}, {K: "while", E: cmp("<", pvar(cn), litInt(bound)), Body: body}}
 		return append(res, g.probe(c)...)
 	case k < 720 && !deep: // WHILE IN
